@@ -674,10 +674,17 @@ def deep_clone(value: Any) -> Any:
 
     # For lists, check if they contain PropertyTreeNode objects
     if isinstance(value, list):
-        if value and hasattr(value[0], "propertySet"):
-            # This is a list of PropertyTreeNode objects (like tasks in depends)
-            # Do a shallow copy to preserve object identity
-            return list(value)
+
+        def refers_to_property(item: Any) -> bool:
+            if isinstance(item, dict):
+                # e.g. a dependency with options: {"task": <Task>, "gapduration": "3h", ...}
+                return any(hasattr(v, "propertySet") for v in item.values())
+            return hasattr(item, "propertySet")
+
+        if any(refers_to_property(item) for item in value):
+            # This is a list of references to PropertyTreeNode objects (like tasks in depends)
+            # Copy the list (and option dicts) but preserve the identity of the referenced objects
+            return [dict(item) if isinstance(item, dict) else item for item in value]
         else:
             # Regular list, deep copy
             return copy.deepcopy(value)
